@@ -1,45 +1,51 @@
 (* C17 — the statements exported by Properties.v, assembled from the passes. *)
 From Coq Require Import List ZArith Bool Lia.
-From Verif Require Import C17.Model C17.Spec C17.Codec C17.Hoare C17.Proofs_once C17.Proofs_guard
+From Verif Require Import C17.Model C17.Spec C17.Codec C17.Hoare C17.Proofs_ver C17.Proofs_once C17.Proofs_guard
   C17.Proofs_frame C17.Proofs_trace C17.Proofs_spec.
 Import ListNotations.
 Open Scope Z_scope.
 
-(* ---- one reconcile, any state, any faults ---- *)
-Lemma reconcile_terminal fx s f :
-  terminal (phase (sj s)) = true -> reconcile fx s f = (s, []).
+(* ---- one reconcile, any well-versioned state ([W]), any faults ---- *)
+Lemma reconcile_terminal fx s f : W s ->
+  terminal (phase (sj s)) = true ->
+  sj (fst (reconcile fx s f)) = sj s /\ sr (fst (reconcile fx s f)) = sr s /\ snd (reconcile fx s f) = [].
 Proof. exact (reconcile_terminal_eq fx s f). Qed.
 
-Lemma reconcile_evict_guard s f x :
+Lemma reconcile_evict_guard s f x : W s ->
   direct (sj s) = false -> In x (snd (reconcile true s f)) -> is_evict x = true ->
   secured (est x) /\ other_node (est x).
 Proof.
-  intros D I E. destruct (reconcile_guard true s f x D I E) as (S & [N|(F & _)]); [auto|discriminate].
+  intros HW D I E. destruct (reconcile_guard true s f x HW D I E) as (S & [N|(F & _)]); [auto|discriminate].
 Qed.
 
-Lemma reconcile_evict_guard_old s f x :
-  direct (sj s) = false -> In x (snd (reconcile false s f)) -> is_evict x = true ->
-  secured (est x) /\ (other_node (est x) \/ check_cached (sj s) = true).
-Proof.
-  intros D I E. destruct (reconcile_guard false s f x D I E) as (S & [N|(_ & C)]); auto.
-Qed.
-
-Lemma reconcile_timeout fx s f :
+Lemma reconcile_timeout fx s f : W s ->
   timed_out (sj s) (sj (fst (reconcile fx s f))) = true -> rref (sj s) = true ->
   sr (fst (reconcile fx s f)) = None.
-Proof. apply (reconcile_frame fx s f). Qed.
+Proof. intros HW. apply (reconcile_frame fx s f HW). Qed.
 
-Lemma reconcile_no_faults_once fx s f : existsb (fun b => b) f = false ->
+Lemma reconcile_no_faults_once fx s f : W s -> existsb (fun b => b) f = false ->
   (length (filter is_evict (snd (reconcile fx s f))) <= 1)%nat
   /\ (cEv (sj s) = C_TRUE \/ cEv (sj s) = C_FALSE ->
       filter is_evict (snd (reconcile fx s f)) = []
       /\ (cEv (sj (fst (reconcile fx s f))) = C_TRUE \/ cEv (sj (fst (reconcile fx s f))) = C_FALSE)).
 Proof.
-  intros NF. destruct (reconcile_once fx s f NF) as (L & O & K). split; [exact L|].
+  intros HW NF. destruct (reconcile_once fx s f HW NF) as (L & O & K). split; [exact L|].
   intros E. split; [|exact (K E)].
   unfold nev in *. destruct (filter is_evict (snd (reconcile fx s f))) as [|a [|b t]] eqn:F; auto.
   - destruct (O eq_refl) as (N & _). contradiction.
   - cbn in L. lia.
+Qed.
+
+(* the staleness guard: under [W] a lagging read is never acted upon, and [W] is an invariant *)
+Lemma lagging_read_skipped fx s f : W s -> lag_of s <> O ->
+  reconcile fx s f = (unlag s, []).
+Proof.
+  intros HW L. unfold reconcile. destruct (lag_of s) as [|k] eqn:E; [contradiction|].
+  destruct HW as [HA|HO].
+  - rewrite HA. unfold rejected.
+    assert (H : sver s - Z.of_nat (S k) <? sver s = true) by (apply Z.ltb_lt; lia).
+    rewrite H. reflexivity.
+  - unfold lag_of in E. rewrite HO in E. cbn [length] in E. rewrite Nat.min_0_r in E. discriminate.
 Qed.
 
 (* ---- all histories, from the job as created ---- *)
@@ -50,10 +56,10 @@ Lemma core_fx fx j0 ops :
 Proof.
   rewrite observe_fx_eq. repeat match goal with |- _ /\ _ => split end.
   - apply obs_length.
-  - intros D o e Io Ie Ev. apply (trace_guard fx ops (init_state j0) D o e Io Ie Ev).
-  - apply (trace_absorbing fx ops (init_state j0)).
-  - apply (trace_timeout fx ops (init_state j0)).
-  - apply trace_once.
+  - intros D o e Io Ie Ev. apply (trace_guard fx ops (init_state j0) (W_init j0) D o e Io Ie Ev).
+  - apply (trace_absorbing fx ops (init_state j0) (W_init j0)).
+  - apply (trace_timeout fx ops (init_state j0) (W_init j0)).
+  - apply trace_once. apply W_init.
   - apply (trace_frame fx ops (init_state j0)).
 Qed.
 
@@ -63,11 +69,11 @@ Proof.
   destruct (core_fx true j0 ops) as (L & G & A & T & O & F). unfold C17_core.
   repeat match goal with |- _ /\ _ => split end; auto.
   rewrite observe_fx_eq. intros D o e Io Ie Ev.
-  apply (trace_guard true ops (init_state j0) D o e Io Ie Ev). reflexivity.
+  apply (trace_guard true ops (init_state j0) (W_init j0) D o e Io Ie Ev). reflexivity.
 Qed.
 
 Lemma leak_shape fx j0 ops : leak_only_unrecorded false j0 ops (observe_fx fx j0 ops) = true.
-Proof. rewrite observe_fx_eq. apply (trace_leak_shape fx ops (init_state j0) false). Qed.
+Proof. rewrite observe_fx_eq. apply (trace_leak_shape fx ops (init_state j0) false (W_init j0)). Qed.
 
 (* the current model: the property holds, or the only failing clause is the strict timeout clause 8
    and the failure has the shape of the known finding (sig 2) *)
@@ -96,7 +102,7 @@ Proof.
     rewrite leak_shape. reflexivity.
   - right; left. destruct (direct j0) eqn:D.
     + unfold evict_other_nodeb in N. rewrite D in N. discriminate.
-    + rewrite observe_fx_eq. pose proof (trace_shape_old ops (init_state j0) D) as Sh.
+    + rewrite observe_fx_eq. pose proof (trace_shape_old ops (init_state j0) (W_init j0) D) as Sh.
       cbn [init_state sj] in Sh. rewrite Sh. reflexivity.
 Qed.
 
